@@ -308,15 +308,14 @@ def run(ctx: Ctx) -> None:
     rep.rule("C03.R6", "in the value hasher a `str(x)` / `repr(x)` whose result is HASHED (first argument of a recursive hasher call or of a digest helper) is taken "
                        "under an isinstance test of x that names types with a deterministic text (dates, paths): the text of a set / frozenset / arbitrary "
                        "object depends on the hash seed or on addresses")
-    from .c05 import hasher as _hasher5
-    outer6, h6 = _hasher5(ctx)
+    from .c05 import hasher as _hasher5, family as _family5, fam_call as _fam_call5
+    _hasher5(ctx)
     n6 = 0
-    rec6 = {nf.name for nf in outer6.nested.values()}
-    for g_ in outer6.nested.values():
+    for g_ in _family5(ctx):
         fl6 = flow_of(prog, g_)
         gcfg = cfg_of(g_)
         for c in g_.own_nodes():
-            if not (isinstance(c, ast.Call) and isinstance(c.func, ast.Name) and (c.func.id in rec6 or c.func.id.startswith("_algo")) and c.args):
+            if not (isinstance(c, ast.Call) and c.args and (_fam_call5(ctx, g_, c) is not None or (isinstance(c.func, ast.Name) and c.func.id.startswith("_algo")))):
                 continue
             a0 = c.args[0]
             texts = []
@@ -343,12 +342,12 @@ def run(ctx: Ctx) -> None:
     rep.floor("C03.R6", n6, 2)
 
     # ---- R5: argument values are hashed from their own content only ----------------------------------------------
-    from .c05 import hasher, branches, dataclass_field_source
+    from .c05 import hasher, all_branches, dataclass_field_source
     rep.rule("C03.R5", "the value hasher takes the components of a dataclass from dataclasses.fields(): no class-level state (ClassVar pseudo-fields, "
                        "__dict__, dir()) enters an argument's hash")
-    _outer, hh = hasher(ctx)
+    hasher(ctx)
     n5 = 0
-    for names, br in branches(hh):
+    for names, br, hh in all_branches(ctx):
         if "<dataclass>" in names:
             n5 += 1
             w5 = dataclass_field_source(hh, br)
